@@ -1,4 +1,449 @@
-/-! Line protocol handler for the `api` domain (stub until the model exists). -/
+import OFCore.Api
+import OFCore.Drv.Util
+/-!
+Line protocol handler for the `api` domain (property C20). One self-contained case per line.
+
+```
+api calc  <world> R <J>                 -> OK <J> | ERR
+api trace <world> R <J>                 -> OK E <J> Q <s…>* T (<key> <J>)* | ERR
+api seq   C|T <world> R <J> (;; C|T <world> R <J>)*   -> <answer> (;; <answer>)*
+api yaml  <world> Y <test> (;; <world> Y <test>)*      -> PASS|FAIL (PASS|FAIL)*
+api phist <ord:val,…|-> <probe,…>       -> <ord:val,…> | <val,…>       (served map ascending; API reading at each probe)
+api vforms <ord,…|-> <end|-> <probe,…>  -> <ord:F|n,…> | <start|-,…>  (served formulas; the one in force at each probe)
+api params <J>                          -> <id-hex,…>                   (ids listed by /parameters, sorted)
+api echo <text>                         -> <text>                       (cases carried by the oracle only)
+```
+
+`<J>` (prefix tokens): `n | bT | bF | i<int> | f<p/q> | s<hex> | [ <J>* ] | { (k<hex> <J>)* }`;
+strings travel as the hex of their UTF-8 bytes (`-` = empty) and are handled as byte strings.
+Objects are printed with their keys sorted (the JSON layer of the application sorts them).
+
+`<world>` = what the built simulation answers (the abstract engine of the model), any number of
+```
+A0                                      the builder refuses the document
+T <var> <int|float|bool|str|date|enum>  get_variable(var).value_type
+X <plural> <id> <index>                 get_population(plural).get_index(id)
+V <var> <period> <canon> ok <val>* ;    calculate(var, period); canon = str(periods.period(period))
+V <var> <period> <canon> err ;
+E <plural> <id>* ;                      describe_entities()
+S <singular>      P <plural>            keys of simulation.populations / known plurals
+```
+`<val>`: `i<int> | f<p/q> | bT | bF | s<hex> | d<YYYY-MM-DD> | e<hex name>`.
+
+`<test>`: `p<hex>|p~` (period) `a <margins>` `r <margins>` `o <Y>|o~`;
+`<margins>`: `~` (absent) | `d<p/q>` (a scalar) | `{ (k<var> <p/q>|~)* }`;
+`<Y>`: `{ (k<hex> <Y>)* } | [ <exp>* ] | <exp>`; `<exp>`: `i f b s d` tokens as above.
+-/
 namespace OFCore.Drv
-def handleApi (_args : List String) : String := "BAD"
+open OFCore.Api
+
+def apiStr? (t : String) : Option String :=
+  if t = "-" then some "" else (unhex t).map String.ofList
+
+def apiHex (s : String) : String := if s.isEmpty then "-" else tohex s.toList
+
+def apiRat? (t : String) : Option Rat :=
+  match t.splitOn "/" with
+  | [p, q] => do
+    let p ← p.toInt?
+    let q ← q.toNat?
+    if q = 0 then none else some (mkRat p q)
+  | [p] => (p.toInt?).map fun n => (n : Rat)
+  | _ => none
+
+def apiShowRat (q : Rat) : String := s!"{q.num}/{q.den}"
+
+def apiYmd? (t : String) : Option YMD :=
+  match t.splitOn "-" with
+  | [y, m, d] => do pure ⟨← y.toNat?, ← m.toNat?, ← d.toNat?⟩
+  | _ => none
+
+def apiTail (t : String) : String := String.ofList (t.toList.drop 1)
+
+/-! ### JSON tokens -/
+
+def apiScalar? (t : String) : Option J :=
+  match t.toList with
+  | ['n'] => some .null
+  | ['b', 'T'] => some (.bool true)
+  | ['b', 'F'] => some (.bool false)
+  | 'i' :: r => ((String.ofList r).toInt?).map J.int
+  | 'f' :: r => (apiRat? (String.ofList r)).map J.num
+  | 's' :: r => (apiStr? (String.ofList r)).map J.str
+  | _ => none
+
+mutual
+def parseJ : Nat → List String → Option (J × List String)
+  | 0, _ => none
+  | _ + 1, [] => none
+  | f + 1, tok :: rest =>
+    if tok = "[" then (parseArr f rest []).map fun (xs, r) => (J.arr xs, r)
+    else if tok = "{" then (parseObj f rest []).map fun (kvs, r) => (J.obj kvs, r)
+    else (apiScalar? tok).map fun j => (j, rest)
+def parseArr : Nat → List String → List J → Option (List J × List String)
+  | 0, _, _ => none
+  | _ + 1, [], _ => none
+  | f + 1, tok :: rest, acc =>
+    if tok = "]" then some (acc.reverse, rest)
+    else
+      match parseJ f (tok :: rest) with
+      | some (j, r) => parseArr f r (j :: acc)
+      | none => none
+def parseObj : Nat → List String → List (String × J) → Option (List (String × J) × List String)
+  | 0, _, _ => none
+  | _ + 1, [], _ => none
+  | f + 1, tok :: rest, acc =>
+    if tok = "}" then some (acc.reverse, rest)
+    else
+      match tok.toList with
+      | 'k' :: kr =>
+        match apiStr? (String.ofList kr), parseJ f rest with
+        | some k, some (j, r) => parseObj f r ((k, j) :: acc)
+        | _, _ => none
+      | _ => none
+end
+
+def insertSorted {α : Type} (x : String × α) : List (String × α) → List (String × α)
+  | [] => [x]
+  | y :: r => if x.1 < y.1 then x :: y :: r else y :: insertSorted x r
+
+def sortKeys {α : Type} (l : List (String × α)) : List (String × α) :=
+  l.foldl (fun acc x => insertSorted x acc) []
+
+mutual
+def showJ : J → List String
+  | .null => ["n"]
+  | .bool b => [if b then "bT" else "bF"]
+  | .int n => [s!"i{n}"]
+  | .num q => ["f" ++ apiShowRat q]
+  | .str s => ["s" ++ apiHex s]
+  | .arr xs => "[" :: showArr xs ++ ["]"]
+  | .obj kvs => "{" :: showObj kvs ++ ["}"]
+def showArr : List J → List String
+  | [] => []
+  | x :: xs => showJ x ++ showArr xs
+def showObj : List (String × J) → List String
+  | [] => []
+  | (k, v) :: r => ("k" ++ apiHex k) :: showJ v ++ showObj r
+end
+
+mutual
+/-- keys sorted at every level (and the last of equal keys kept, as a JSON parser does) -/
+def canonJ : J → J
+  | .arr xs => .arr (canonArr xs)
+  | .obj kvs => .obj (sortKeys (canonObj kvs))
+  | .null => .null
+  | .bool b => .bool b
+  | .int n => .int n
+  | .num q => .num q
+  | .str s => .str s
+def canonArr : List J → List J
+  | [] => []
+  | x :: xs => canonJ x :: canonArr xs
+def canonObj : List (String × J) → List (String × J)
+  | [] => []
+  | (k, v) :: r => (k, canonJ v) :: canonObj r
+end
+
+def apiShowJ (j : J) : String := " ".intercalate (showJ (canonJ j))
+
+/-! ### the world -/
+
+def apiVType? : String → Option VType
+  | "int" => some .int | "float" => some .float | "bool" => some .bool | "str" => some .str
+  | "date" => some .date | "enum" => some .enum | _ => none
+
+def apiVal? (t : String) : Option Val :=
+  match t.toList with
+  | ['b', 'T'] => some (.bool true)
+  | ['b', 'F'] => some (.bool false)
+  | 'i' :: r => ((String.ofList r).toInt?).map Val.int
+  | 'f' :: r => (apiRat? (String.ofList r)).map Val.num
+  | 's' :: r => (apiStr? (String.ofList r)).map Val.str
+  | 'e' :: r => (apiStr? (String.ofList r)).map Val.enum
+  | 'd' :: r => (apiYmd? (String.ofList r)).map Val.date
+  | _ => none
+
+structure World where
+  accepts : Bool := true
+  types : List (String × VType) := []
+  idx : List ((String × String) × Nat) := []
+  vecs : List ((String × String) × String × Except String (List Val)) := []
+  ents : List (String × List String) := []
+  sing : List String := []
+  plur : List String := []
+
+def World.sim (w : World) : Sim where
+  vtype v := (w.types.find? (·.1 = v)).map (·.2)
+  calcv v p := match w.vecs.find? (·.1 = (v, p)) with
+    | some (_, _, r) => r
+    | none => .error "not tabulated"
+  index pl id := (w.idx.find? (·.1 = (pl, id))).map (·.2)
+  canon p := match w.vecs.find? (·.1.2 = p) with
+    | some (_, c, _) => c
+    | none => p
+  entities := w.ents
+  singular k := w.sing.contains k
+  plural k := w.plur.contains k
+
+/-- the system of a line: the builder's acceptance and the engine's answers are tabulated for the
+one document of the block -/
+def World.system (w : World) : System := fun _ => if w.accepts then .ok w.sim else .error "refused"
+
+/-- tokens up to the terminator `;` -/
+def splitSemi : List String → List String × List String
+  | [] => ([], [])
+  | t :: r => if t = ";" then ([], r) else let (a, b) := splitSemi r; (t :: a, b)
+
+/-- read world entries until a token that is none of them; returns the rest (starting at that token) -/
+def parseWorld : Nat → List String → World → Option (World × List String)
+  | 0, _, _ => none
+  | _ + 1, [], w => some (w, [])
+  | f + 1, tok :: rest, w =>
+    match tok, rest with
+    | "A0", r => parseWorld f r { w with accepts := false }
+    | "A1", r => parseWorld f r w
+    | "T", v :: t :: r =>
+      match apiStr? v, apiVType? t with
+      | some v, some t => parseWorld f r { w with types := w.types ++ [(v, t)] }
+      | _, _ => none
+    | "X", pl :: id :: i :: r =>
+      match apiStr? pl, apiStr? id, i.toNat? with
+      | some pl, some id, some i => parseWorld f r { w with idx := w.idx ++ [((pl, id), i)] }
+      | _, _, _ => none
+    | "V", v :: p :: c :: st :: r =>
+      let (body, r') := splitSemi r
+      match apiStr? v, apiStr? p, apiStr? c with
+      | some v, some p, some c =>
+        if st = "err" then parseWorld f r' { w with vecs := w.vecs ++ [((v, p), c, .error "engine")] }
+        else if st = "ok" then
+          match body.mapM apiVal? with
+          | some vs => parseWorld f r' { w with vecs := w.vecs ++ [((v, p), c, .ok vs)] }
+          | none => none
+        else none
+      | _, _, _ => none
+    | "E", pl :: r =>
+      let (body, r') := splitSemi r
+      match apiStr? pl, body.mapM apiStr? with
+      | some pl, some ids => parseWorld f r' { w with ents := w.ents ++ [(pl, ids)] }
+      | _, _ => none
+    | "S", k :: r =>
+      match apiStr? k with
+      | some k => parseWorld f r { w with sing := w.sing ++ [k] }
+      | none => none
+    | "P", k :: r =>
+      match apiStr? k with
+      | some k => parseWorld f r { w with plur := w.plur ++ [k] }
+      | none => none
+    | _, _ => some (w, tok :: rest)
+
+/-! ### requests -/
+
+def parseRequest (toks : List String) : Option (World × J) :=
+  match parseWorld (toks.length + 1) toks {} with
+  | some (w, "R" :: r) =>
+    match parseJ (r.length + 1) r with
+    | some (j, []) => some (w, j)
+    | _ => none
+  | _ => none
+
+def answerCalc (w : World) (req : J) : String :=
+  match calculateH w.system req with
+  | .ok out => "OK " ++ apiShowJ out
+  | .error _ => "ERR"
+
+def entitiesJ (es : List (String × List String)) : J :=
+  .obj (es.map fun (pl, ids) => (pl, .arr (ids.map J.str)))
+
+def answerTrace (w : World) (req : J) : String :=
+  match traceH w.system req with
+  | .error _ => "ERR"
+  | .ok a =>
+    let q := a.requestedCalculations.map fun (v, p) => "s" ++ apiHex (v ++ "<" ++ p ++ ">")
+    let tr := sortKeys (a.trace.map fun ((v, c), js) => (v ++ "<" ++ c ++ ">", J.arr js))
+    let t := tr.flatMap fun (k, j) => [apiHex k, apiShowJ j]
+    " ".intercalate (["OK", "E", apiShowJ (entitiesJ a.entitiesDescription), "Q"] ++ q ++ ["T"] ++ t)
+
+/-- blocks separated by `;;` -/
+def splitBlocks (toks : List String) : List (List String) :=
+  let rec go : List String → List String → List (List String) → List (List String)
+    | [], cur, acc => (cur.reverse :: acc).reverse
+    | t :: r, cur, acc => if t = ";;" then go r [] (cur.reverse :: acc) else go r (t :: cur) acc
+  go toks [] []
+
+def answerSeqBlock (toks : List String) : Option String :=
+  match toks with
+  | "C" :: r => (parseRequest r).map fun (w, j) => answerCalc w j
+  | "T" :: r => (parseRequest r).map fun (w, j) => answerTrace w j
+  | _ => none
+
+/-! ### YAML tests -/
+
+def apiExp? (t : String) : Option Exp :=
+  match t.toList with
+  | ['b', 'T'] => some (.bool true)
+  | ['b', 'F'] => some (.bool false)
+  | 'i' :: r => ((String.ofList r).toInt?).map Exp.int
+  | 'f' :: r => (apiRat? (String.ofList r)).map Exp.num
+  | 's' :: r => (apiStr? (String.ofList r)).map Exp.str
+  | 'd' :: r => (apiYmd? (String.ofList r)).map Exp.date
+  | _ => none
+
+def parseExps : List String → List Exp → Option (List Exp × List String)
+  | [], _ => none
+  | tok :: rest, acc =>
+    if tok = "]" then some (acc.reverse, rest)
+    else
+      match apiExp? tok with
+      | some e => parseExps rest (e :: acc)
+      | none => none
+
+mutual
+def parseY : Nat → List String → Option (Y × List String)
+  | 0, _ => none
+  | _ + 1, [] => none
+  | f + 1, tok :: rest =>
+    if tok = "[" then (parseExps rest []).map fun (es, r) => (Y.list es, r)
+    else if tok = "{" then (parseYMap f rest []).map fun (kvs, r) => (Y.map kvs, r)
+    else (apiExp? tok).map fun e => (Y.leaf e, rest)
+def parseYMap : Nat → List String → List (String × Y) → Option (List (String × Y) × List String)
+  | 0, _, _ => none
+  | _ + 1, [], _ => none
+  | f + 1, tok :: rest, acc =>
+    if tok = "}" then some (acc.reverse, rest)
+    else
+      match tok.toList with
+      | 'k' :: kr =>
+        match apiStr? (String.ofList kr), parseY f rest with
+        | some k, some (y, r) => parseYMap f r ((k, y) :: acc)
+        | _, _ => none
+      | _ => none
+end
+
+def parseMarginEntries : List String → Margins → Option (Margins × List String)
+  | [], _ => none
+  | [_], _ => none
+  | tok :: v :: rest, m =>
+    if tok = "}" then some (m, v :: rest)
+    else
+      match tok.toList with
+      | 'k' :: kr =>
+        match apiStr? (String.ofList kr), (if v = "~" then some none else (apiRat? v).map some) with
+        | some k, some q =>
+          if k = "default" then parseMarginEntries rest { m with default := some q }
+          else parseMarginEntries rest { m with per := m.per ++ [(k, q)] }
+        | _, _ => none
+      | _ => none
+
+def parseMargins : List String → Option (Margins × List String)
+  | [] => none
+  | tok :: rest =>
+    if tok = "~" then some (⟨some none, []⟩, rest)
+    else if tok = "{" then
+      match rest with
+      | ["}"] => some (⟨none, []⟩, [])
+      | "}" :: r => some (⟨none, []⟩, r)
+      | _ => parseMarginEntries rest ⟨none, []⟩
+    else
+      match tok.toList with
+      | 'd' :: r => (apiRat? (String.ofList r)).map fun q => (⟨some (some q), []⟩, rest)
+      | _ => none
+
+def parseTest (toks : List String) : Option YTest :=
+  match toks with
+  | ptok :: "a" :: r =>
+    let per? : Option (Option String) :=
+      match ptok.toList with
+      | ['p', '~'] => some none
+      | 'p' :: pr => (apiStr? (String.ofList pr)).map some
+      | _ => none
+    match per?, parseMargins r with
+    | some per, some (am, "r" :: r2) =>
+      match parseMargins r2 with
+      | some (rm, ["o~"]) => some ⟨per, am, rm, none⟩
+      | some (rm, "o" :: r3) =>
+        match parseY (r3.length + 1) r3 with
+        | some (Y.map kvs, []) => some ⟨per, am, rm, some kvs⟩
+        | _ => none
+      | _ => none
+    | _, _ => none
+  | _ => none
+
+def answerYamlBlock (toks : List String) : Option String :=
+  match parseWorld (toks.length + 1) toks {} with
+  | some (w, "Y" :: r) =>
+    (parseTest r).map fun t =>
+      if verdict (if w.accepts then .ok w.sim else .error "refused") t then "PASS" else "FAIL"
+  | _ => none
+
+/-! ### listings -/
+
+def apiList (tok : String) : List String := if tok = "-" then [] else tok.splitOn ","
+
+def apiPVal? (t : String) : Option (Option J) :=
+  if t = "n" then some none else (apiScalar? t).map some
+
+def apiShowPVal : Option J → String
+  | none => "n"
+  | some j => " ".intercalate (showJ j)
+
+def apiEntry? (t : String) : Option (Param.Entry J) :=
+  match t.splitOn ":" with
+  | [d, v] => do pure ⟨← d.toInt?, ← apiPVal? v⟩
+  | _ => none
+
+def insertByDate {α : Type} (x : Int × α) : List (Int × α) → List (Int × α)
+  | [] => [x]
+  | y :: r => if x.1 < y.1 then x :: y :: r else y :: insertByDate x r
+
+def sortByDate {α : Type} (l : List (Int × α)) : List (Int × α) := l.foldl (fun acc x => insertByDate x acc) []
+
+def apiShowList (xs : List String) : String := if xs.isEmpty then "-" else ",".intercalate xs
+
+def handleApi (args : List String) : String :=
+  match args with
+  | "calc" :: r =>
+    match parseRequest r with
+    | some (w, j) => answerCalc w j
+    | none => "BAD"
+  | "trace" :: r =>
+    match parseRequest r with
+    | some (w, j) => answerTrace w j
+    | none => "BAD"
+  | "seq" :: r =>
+    match (splitBlocks r).mapM answerSeqBlock with
+    | some as => " ;; ".intercalate as
+    | none => "BAD"
+  | "yaml" :: r =>
+    match (splitBlocks r).mapM answerYamlBlock with
+    | some as => " ".intercalate as
+    | none => "BAD"
+  | ["phist", hist, probes] =>
+    match (apiList hist).mapM apiEntry?, (apiList probes).mapM String.toInt? with
+    | some l, some ps =>
+      let served := servedHistory l
+      let shown := (sortByDate served).map fun (d, v) => s!"{d}:{apiShowPVal v}"
+      let atp := ps.map fun d => apiShowPVal (apiGetValue d served)
+      s!"{apiShowList shown} | {apiShowList atp}"
+    | _, _ => "BAD"
+  | ["vforms", starts, stop, probes] =>
+    match (apiList starts).mapM String.toInt?, (if stop = "-" then some none else stop.toInt?.map some),
+        (apiList probes).mapM String.toInt? with
+    | some ss, some e, some ps =>
+      let served := servedFormulas (ss.map fun s => (s, s)) e
+      let shown := (sortByDate served).map fun (d, v) => s!"{d}:{if v.isSome then "F" else "n"}"
+      let atp := ps.map fun d => match apiFormulaAt d served with
+        | some s => toString s
+        | none => "-"
+      s!"{apiShowList shown} | {apiShowList atp}"
+    | _, _, _ => "BAD"
+  | "params" :: r =>
+    match parseJ (r.length + 1) r with
+    | some (j, []) =>
+      let ids := (listedParameters "" j).map fun s => (s, ())
+      apiShowList ((sortKeys ids).map fun (s, _) => apiHex s)
+    | _ => "BAD"
+  | ["echo", t] => t
+  | _ => "BAD"
+
 end OFCore.Drv
